@@ -22,7 +22,7 @@ theorem stCreate_step (s : State) (ip : IP) (r : Rec) : StoreStep s (stCreate s 
   · exact ⟨api_frame s, rfl, rfl⟩
   · split
     · exact ⟨api_frame s, rfl, rfl⟩
-    · exact ⟨⟨rfl, rfl, rfl, rfl, rfl, rfl, rfl, rfl, rfl, rfl, rfl, rfl, rfl, rfl, by simp [State.api]⟩, rfl, rfl⟩
+    · exact ⟨⟨rfl, rfl, rfl, rfl, rfl, rfl, rfl, rfl, rfl, rfl, rfl, rfl, rfl, rfl, api_calls_le s⟩, rfl, rfl⟩
 
 theorem stCreate_store (s : State) (ip : IP) (r : Rec) :
     ((stCreate s ip r).2 = true → (stCreate s ip r).1.store = Tbl.set s.store ip r) ∧
@@ -35,11 +35,11 @@ theorem stCreate_store (s : State) (ip : IP) (r : Rec) :
 
 /-- a create of an address the store does not hold fails only through the injected fault -/
 theorem stCreate_fail_spent (s : State) (ip : IP) (r : Rec) (hn : Tbl.get s.store ip = none)
-    (hf : (stCreate s ip r).2 = false) : FaultSpent (stCreate s ip r).1 := by
+    (hf : (stCreate s ip r).2 = false) (hcm : s.crashMode = false) : FaultSpent (stCreate s ip r).1 := by
   unfold stCreate at hf ⊢
   dsimp only at hf ⊢
   split
-  · rename_i h; exact api_spent s (Or.inr h)
+  · rename_i h; exact api_spent s (Or.inr ⟨hcm, h⟩)
   · split
     · rename_i h; simp [hn] at h
     · simp_all
@@ -71,7 +71,7 @@ theorem stUpdate_step (s : State) (ip : IP) (r : Rec) : StoreStep s (stUpdate s 
     · exact ⟨f1, rfl, rfl⟩
     · split
       · exact ⟨f1.trans f2, rfl, rfl⟩
-      · exact ⟨⟨rfl, rfl, rfl, rfl, rfl, rfl, rfl, rfl, rfl, rfl, rfl, rfl, rfl, rfl, by simp [State.api]; omega⟩, rfl, rfl⟩
+      · exact ⟨⟨rfl, rfl, rfl, rfl, rfl, rfl, rfl, rfl, rfl, rfl, rfl, rfl, rfl, rfl, Nat.le_trans (api_calls_le s) (api_calls_le s.api.1)⟩, rfl, rfl⟩
 
 theorem stUpdate_store (s : State) (ip : IP) (r : Rec) :
     ((stUpdate s ip r).2 = true → (stUpdate s ip r).1.store = Tbl.set s.store ip r) ∧
@@ -91,7 +91,7 @@ theorem stDelete_step (s : State) (ip : IP) : StoreStep s (stDelete s ip).1 := b
   · exact ⟨api_frame s, rfl, rfl⟩
   · split
     · exact ⟨api_frame s, rfl, rfl⟩
-    · exact ⟨⟨rfl, rfl, rfl, rfl, rfl, rfl, rfl, rfl, rfl, rfl, rfl, rfl, rfl, rfl, by simp [State.api]⟩, rfl, rfl⟩
+    · exact ⟨⟨rfl, rfl, rfl, rfl, rfl, rfl, rfl, rfl, rfl, rfl, rfl, rfl, rfl, rfl, api_calls_le s⟩, rfl, rfl⟩
 
 theorem stDelete_store (s : State) (ip : IP) :
     ((stDelete s ip).2 = true → (stDelete s ip).1.store = Tbl.erase s.store ip) ∧
